@@ -760,6 +760,7 @@ type devCfg struct {
 	maxStates  int
 	reorder    bool
 	crashInside bool // deviation: crash inside the default next step, before each of its effects
+	preAllow   uint64    // Byzantine strategy: menu entries released to every node from the start
 	prefix     []dAction // base schedule applied before the search starts (cost 0)
 }
 
@@ -825,6 +826,9 @@ func (x *explorer) searchDev(cfg devCfg) *devResult {
 	}
 	for _, i := range x.correct {
 		s0.L[i] = x.initial(i).id
+	}
+	for _, i := range x.correct {
+		s0.allow[i] = cfg.preAllow
 	}
 	seen := map[dState]int8{}
 	var path []dAction
